@@ -41,10 +41,11 @@ def _classes():
     class DyPoly(Function):
         """f_k(x) = prod_d (c_kd + x_d ** p_kd), dyadic coefficients; remembers every distinct evaluation point"""
 
-        def __init__(self, coeffs, powers):
+        def __init__(self, coeffs, powers, scale=1.0):
             super().__init__()
             self.c = [list(map(float, ck)) for ck in coeffs]
             self.p = [list(map(int, pk)) for pk in powers]
+            self.scale = float(scale)
             self.seen = {}
             self.calls = 0
 
@@ -60,7 +61,7 @@ def _classes():
                     raise Runaway()
             out = []
             for ck, pk in zip(self.c, self.p):
-                v = 1.0
+                v = self.scale
                 for d, x in enumerate(key):
                     v *= ck[d] + x ** pk[d]
                 out.append(v)
@@ -69,7 +70,7 @@ def _classes():
         def exact(self, a, b):
             out = []
             for ck, pk in zip(self.c, self.p):
-                v = Fraction(1)
+                v = Fraction(self.scale)
                 for d in range(len(a)):
                     q = pk[d] + 1
                     A, B = Fraction(a[d]), Fraction(b[d])
@@ -160,6 +161,10 @@ def ref_class(ref):
     return "zero" if all(z) else ("partial_zero" if any(z) else "nonzero")
 
 
+def make_f(cfg):
+    return _classes()["DyPoly"](cfg["coeffs"], cfg["powers"], cfg.get("scale", 1.0))
+
+
 def build(cfg):
     """a fresh instance for configuration cfg -> (instance, error operator, integrand)"""
     import numpy as np
@@ -169,7 +174,9 @@ def build(cfg):
     C = _classes()
     dim = cfg["dim"]
     a, b = np.zeros(dim), np.ones(dim)
-    f = C["DyPoly"](cfg["coeffs"], cfg["powers"])
+    f = make_f(cfg)
+    if cfg.get("cache", True) is False:
+        f.deactivate_caching()      # f_dict then only serves as the point counter
     ref = reference_of(cfg, f)
     norm = norm_of(cfg["norm"])
     if cfg["strategy"] == "dimwise":
@@ -266,14 +273,27 @@ def error_formula(norm, ref, res):
     return sum(x * x for x in dev) / n
 
 
-def same_error(norm, impl_err, exact):
-    """impl float vs exact Fraction (squared for the 2-norm)"""
+def relclose(a, b, tol):
+    a, b = float(a), float(b)
+    return a == b or abs(a - b) <= tol * max(abs(a), abs(b))
+
+
+def error_unit(ref, res):
+    """natural size of the reported error: 1 for a relative deviation, max|result| for the absolute one (zero reference);
+    integrands are scaled by 1e-12 .. 1e8, so no comparison may use an absolute tolerance"""
+    if ref is None or any(float(r) != 0.0 for r in ref):
+        return 1.0
+    return max([abs(float(x)) for x in res] + [0.0])
+
+
+def same_error(norm, impl_err, exact, unit=1.0):
+    """impl float vs exact Fraction (squared for the 2-norm); relative 1e-9 plus 1e-13 of the natural size"""
     if exact is None:
         return not math.isfinite(impl_err)
     if not math.isfinite(impl_err):
         return False
-    v = impl_err * impl_err if norm == "2" else impl_err
-    return close(v, float(exact), 1e-9) or abs(v - float(exact)) <= 1e-15
+    target = math.sqrt(float(exact)) if norm == "2" else float(exact)
+    return abs(impl_err - target) <= 1e-9 * abs(target) + 1e-13 * unit
 
 
 # ------------------------------------------------------------------------------------------------ one case
@@ -281,9 +301,9 @@ def check_run(ctx, drv, cfg, limits, scout_stream=None, tag_extra=None):
     """run cfg with limits on the implementation, compare with the model, evaluate the oracle.
     returns (ok, observed stream or None)"""
     case = {"cfg": cfg, "limits": limits}
-    rclass = ref_class(reference_of(cfg, _classes()["DyPoly"](cfg["coeffs"], cfg["powers"])))
+    rclass = ref_class(reference_of(cfg, make_f(cfg)))
     tags = {"strategy": cfg["strategy"], "ref": rclass, "norm": cfg["norm"], "dim": cfg["dim"],
-            "outputs": len(cfg["coeffs"])}
+            "outputs": len(cfg["coeffs"]), "scale": cfg.get("scale", 1.0), "cache": cfg.get("cache", True)}
     ctx.count("refclass_" + rclass)
     if tag_extra:
         tags.update(tag_extra)
@@ -372,7 +392,7 @@ def check_run(ctx, drv, cfg, limits, scout_stream=None, tag_extra=None):
     if ref is not None:
         for i, ev in enumerate(evals[:n]):
             ex = error_formula(cfg["norm"], ref, ev["result"])
-            if not same_error(cfg["norm"], stream[i][0], ex):
+            if not same_error(cfg["norm"], stream[i][0], ex, error_unit(ref, ev["result"])):
                 viol("error-formula", {"evaluation": i, "reported_error": stream[i][0],
                                        "deviation_from_reference": None if ex is None else float(ex),
                                        "squared_for_2norm": cfg["norm"] == "2", "result": ev["result"],
@@ -414,7 +434,7 @@ def check_run(ctx, drv, cfg, limits, scout_stream=None, tag_extra=None):
         elif ref is None:
             if Fraction(stream[i][0]) != Fraction(m):        # no reference: the error IS the total surplus error
                 corr("error-value", stream[i][0], m)
-        elif not same_error(cfg["norm"], stream[i][0], Fraction(m)):
+        elif not same_error(cfg["norm"], stream[i][0], Fraction(m), error_unit(ref, ev["result"])):
             corr("error-value", stream[i][0], m)
     # benefit / totals of the model on the implementation's per-object numbers (last evaluation)
     if evals:
@@ -422,11 +442,11 @@ def check_run(ctx, drv, cfg, limits, scout_stream=None, tag_extra=None):
         objs = [o for o in ev["objs"] if o[0] is not None and o[1] is not None and o[2] is not None]
         for o in objs[:6]:
             m = Fraction(drv.ask("benefit %s %s" % (fr(o[0]), fr(o[2]))))
-            if not close(o[1], float(m), 1e-12):
+            if not relclose(o[1], m, 1e-12):
                 corr("benefit", o, str(m))
         if objs and len(objs) == len(ev["objs"]):
             m = drv.ask("totals %s %s" % (",".join(fr(o[0]) for o in objs), ",".join(fr(o[1]) for o in objs))).split()
-            if not close(ev["total_error"], float(Fraction(m[0])), 1e-9):
+            if not relclose(ev["total_error"], Fraction(m[0]), 1e-9):
                 corr("total-error", ev["total_error"], m[0])
             if ev["benefit_max"] != float(Fraction(m[1])):
                 corr("max-benefit", ev["benefit_max"], m[1])
@@ -460,8 +480,10 @@ def gen_cfg(rng, thorough, strategy=None):
     if all(p == 1 for pk in powers for p in pk):
         powers[0][0] = 2       # a multilinear integrand is integrated exactly: no refinement would ever differ
     ref = rng.choice(["exact", "exact", "perturbed", "perturbed", "zero", "none"] + (["partial_zero"] if nout > 1 else ["exact"]))
+    # tiny / huge integrands (SI-unit sized quantities): a non-zero reference stays non-zero however small it is
+    scale = rng.choice([1.0, 1.0, 1.0, 1.0, 1e-10, 1e-12, 2.0 ** -34, 2.0 ** -45, 1e8, 2.0 ** 27])
     cfg = {"strategy": strategy, "dim": dim, "lmax": lmax, "coeffs": coeffs, "powers": powers, "ref": ref,
-           "norm": rng.choice(["inf", "1", "2"])}
+           "norm": rng.choice(["inf", "1", "2"]), "scale": scale, "cache": rng.random() >= 0.2}
     if strategy == "dimwise":
         cfg["version"] = rng.choice([6, 6, 2, 3])
     return cfg
@@ -496,7 +518,8 @@ def gen_limits(rng, stream, k):
 def run(ctx):
     thorough = ctx.tier == "thorough"
     ctx.rule = ("complete adaptive Integration runs (dimension-wise+GlobalTrapezoidalGrid versions 2/3/6, extend-split+TrapezoidalGrid; dim 2-3, "
-                "lmin 1, lmax 2-3; dyadic polynomial integrands with 1-3 outputs; reference exact/perturbed/zero/partially zero/none; norms inf,1,2); "
+                "lmin 1, lmax 2-3; dyadic polynomial integrands with 1-3 outputs, scaled by 1 / 1e-10 / 1e-12 / 2^-34 / 2^-45 / 1e8 / 2^27, value cache on or "
+                "deactivated; reference exact/perturbed/zero/partially zero/none; norms inf,1,2); "
                 "a scout run (tol=-1) gives the stream, limits (tol,min,max) are then put exactly on its boundaries incl. limits met at the first "
                 "evaluation; the model must predict stop index / evaluations / refinements / array lengths from the scout stream; a case is one "
                 "(configuration, limits) run, distinct by both, non-trivial if it made at least one refinement or stopped at the first evaluation by a limit")
@@ -520,6 +543,7 @@ def run(ctx):
         ok, stream = check_run(ctx, drv, cfg, scout_limits)
         ctx.count("strategy_" + cfg["strategy"]); ctx.count("ref_" + cfg["ref"]); ctx.count("norm_" + cfg["norm"])
         ctx.count("dim_%d" % cfg["dim"]); ctx.count("outputs_%d" % len(cfg["coeffs"]))
+        ctx.count("scale_" + ("1" if cfg["scale"] == 1.0 else ("tiny" if cfg["scale"] < 1 else "huge"))); ctx.count("cache_%s" % cfg["cache"])
         ctx.case({"cfg": cfg, "limits": scout_limits}, nontrivial=bool(stream and len(stream) > 1),
                  sample={"cfg": cfg, "limits": scout_limits, "points": [x[1] for x in (stream or [])]} if k < 2 else None)
         if (len(ctx.violations) + len(ctx.corr_breaks)) >= ctx.max_reports:
